@@ -36,7 +36,7 @@ SPEC = {
          'sinks': {'C14_pplugh': 'pplugh_judge'}, 'n': {'quick': 200, 'thorough': 8000}},
     ],
     'known': {},
-    'rule': 'dev: operand magnitudes 0..2^260, x1 placed at the deviation threshold of x2 (ppb-1/ppb/ppb+1, +-1 unit), zeros, equal, '
+    'rule': 'half of the chain-fee cases use production-sized chain selectors (more than 2^63 apart or cyclic modulo 2^64); dev: operand magnitudes 0..2^260, x1 placed at the deviation threshold of x2 (ppb-1/ppb/ppb+1, +-1 unit), zeros, equal, '
             'negative (model only), both argument orders; usd: products within 1 of a multiple of 1e18; pack: components around 2^112 and up to 2^260; '
             'med: 1..12 big integers with ties; cf / tp: DONs of 4..10 oracles, F=(N-1)/3 (or random), destination + 1..3 source chains '
             '(feed chain for tp) with f in 1..2, observation counts per key drawn from {2f, 2f+1, 2f+2, all}, honest spread 0 / 0.1% / 20% with up to f outliers '
